@@ -9,13 +9,13 @@ WT=/tmp/mut/wt-verify
 cd "$WT" && git checkout -q --detach "$(git -C /repo rev-parse HEAD)" && git checkout -- . && git clean -fdq
 cp "$OUT"/demo_test.go "$PKG/$DEST"
 echo "-- demo WITHOUT patch (must pass)"
-go test -tags test -count=1 -run "$RX" "./$PKG/" 2>&1 | tail -3
+go test -tags "${TAGS:-test}" -count=1 -run "$RX" "./$PKG/" 2>&1 | tail -3
 git apply "$OUT/patch.diff" || { echo "patch does not apply"; exit 2; }
 echo "-- build + vet with patch"
 go build ./... 2>&1 | tail -3
 echo "-- demo WITH patch (must fail)"
-go test -tags test -count=1 -run "$RX" "./$PKG/" 2>&1 | tail -4
+go test -tags "${TAGS:-test}" -count=1 -run "$RX" "./$PKG/" 2>&1 | tail -4
 rm -f "$PKG/$DEST"
 echo "-- existing package tests with patch (must pass)"
-go test -tags test -count=1 "./$PKG/" 2>&1 | tail -3
+go test -tags "${TAGS:-test}" -count=1 "./$PKG/" 2>&1 | grep -E "^(--- FAIL|FAIL|ok|panic)" | head -12
 git checkout -- . ; git clean -fdq
